@@ -152,6 +152,12 @@ def AnalyseInput.scoped (i : AnalyseInput) : List Ann :=
 def AnalyseInput.validated (i : AnalyseInput) : List Validated :=
   i.scoped.map (validate (i.roasHeld.map (·.payload)))
 
+/-- All results, unless one of them is the panic. -/
+def allSome {α} : List (Option α) → Option (List α)
+  | [] => some []
+  | none :: _ => none
+  | some x :: rest => (allSome rest).map (x :: ·)
+
 /-- `BgpAnalyser::analyse`; `none` = panic. -/
 def analyse (i : AnalyseInput) : Option (List Entry) :=
   let notHeld : List Entry := i.roasNotHeld.map (fun r => { subject := .inl r, state := .roaNotHeld })
@@ -160,7 +166,7 @@ def analyse (i : AnalyseInput) : Option (List Entry) :=
     some (notHeld ++ i.roasHeld.map (fun r => { subject := .inl r, state := .roaNoAnnouncementInfo }))
   | some _ =>
     let validated := i.validated
-    match i.roasHeld.mapM (fun r => categoriseRoa r validated i.roasHeld) with
+    match allSome (i.roasHeld.map (fun r => categoriseRoa r validated i.roasHeld)) with
     | none => none
     | some roaEntries => some (notHeld ++ roaEntries ++ validated.map (·.toEntry))
 
